@@ -194,4 +194,77 @@ theorem noNl_writeNodes (q : WQuirks) : ∀ (ns : Nodes) (b : Buf), noNl b.rev =
     exact noNl_writeNodes q ns _ (noNl_writeNode q n b hb h.1) h.2
 end
 
+/-! ### custom-property values exempted (clause 4 says "outside custom-property values") -/
+
+mutual
+/-- the tree with every custom-property value blanked: what is left of the output when the
+custom-property values are taken out -/
+def blankNode : Node → Node
+  | .custom name _ quoted => .custom name [] quoted
+  | .rule sel body => .rule sel (blankNodes body)
+  | .media args body => .media args (blankNodes body)
+  | .atBlock name args body => .atBlock name args (blankNodes body)
+  | .comment t => .comment t
+  | .import_ a => .import_ a
+  | .prop n v => .prop n v
+  | .atLeaf n a => .atLeaf n a
+  | .separator => .separator
+def blankNodes : Nodes → Nodes
+  | .nil => .nil
+  | .cons n ns => .cons (blankNode n) (blankNodes ns)
+end
+
+mutual
+/-- `nodeNoNl` without any demand on custom-property values -/
+def nodeNoNlX (q : WQuirks) : Node → Bool
+  | .comment text => !q.commentReindentCompressed || noNl text
+  | .import_ a => noNl a.c
+  | .prop name _ => noNl name
+  | .custom name _ _ => noNl name
+  | .rule sel body => optNoNl sel && nodesNoNlX q body
+  | .media args body => noNl args.c && nodesNoNlX q body
+  | .atLeaf name args => noNl name && (!q.atArgsRawCompressed || optNoNl args)
+  | .atBlock name args body => noNl name && (!q.atArgsRawCompressed || optNoNl args) && nodesNoNlX q body
+  | .separator => true
+def nodesNoNlX (q : WQuirks) : Nodes → Bool
+  | .nil => true
+  | .cons n ns => nodeNoNlX q n && nodesNoNlX q ns
+end
+
+mutual
+theorem nodeNoNl_blank (q : WQuirks) : ∀ n : Node, nodeNoNl q (blankNode n) = nodeNoNlX q n
+  | .custom name _ quoted => by simp [blankNode, nodeNoNl, nodeNoNlX, noNl]
+  | .rule sel body => by simp [blankNode, nodeNoNl, nodeNoNlX, nodesNoNl_blank q body]
+  | .media args body => by simp [blankNode, nodeNoNl, nodeNoNlX, nodesNoNl_blank q body]
+  | .atBlock name args body => by simp [blankNode, nodeNoNl, nodeNoNlX, nodesNoNl_blank q body]
+  | .comment t => by simp [blankNode, nodeNoNl, nodeNoNlX]
+  | .import_ a => by simp [blankNode, nodeNoNl, nodeNoNlX]
+  | .prop n v => by simp [blankNode, nodeNoNl, nodeNoNlX]
+  | .atLeaf n a => by simp [blankNode, nodeNoNl, nodeNoNlX]
+  | .separator => by simp [blankNode, nodeNoNl, nodeNoNlX]
+theorem nodesNoNl_blank (q : WQuirks) : ∀ ns : Nodes, nodesNoNl q (blankNodes ns) = nodesNoNlX q ns
+  | .nil => by simp [blankNodes, nodesNoNl, nodesNoNlX]
+  | .cons n ns => by simp [blankNodes, nodesNoNl, nodesNoNlX, nodeNoNl_blank q n, nodesNoNl_blank q ns]
+end
+
+theorem isImport_blank (n : Node) : isImport (blankNode n) = isImport n := by
+  cases n <;> simp [blankNode, isImport]
+
+theorem ofList_map_blank (l : List Node) : Nodes.ofList (l.map blankNode) = blankNodes (Nodes.ofList l) := by
+  induction l with
+  | nil => simp [Nodes.ofList, blankNodes]
+  | cons n l ih => simp [Nodes.ofList, blankNodes, ih]
+
+theorem filter_map_blank (p : Node → Bool) (hp : ∀ n, p (blankNode n) = p n) (l : List Node) :
+    (l.map blankNode).filter p = (l.filter p).map blankNode := by
+  induction l with
+  | nil => rfl
+  | cons n l ih =>
+    simp only [List.map_cons, List.filter_cons, hp n]
+    split <;> simp [ih]
+
+theorem hoist_map_blank (l : List Node) : hoistImports (l.map blankNode) = (hoistImports l).map blankNode := by
+  unfold hoistImports
+  rw [filter_map_blank _ isImport_blank, filter_map_blank _ (fun n => by rw [isImport_blank]), List.map_append]
+
 end Writer
